@@ -47,9 +47,9 @@ const (
 )
 
 const (
-	pathBroker = iota // Client.SeedBrokers()[0].Request
-	pathBrokerRetry   // ... .RetriableRequest
-	pathClient        // Client.Request (Metadata only: no routing needed)
+	pathBroker      = iota // Client.SeedBrokers()[0].Request
+	pathBrokerRetry        // ... .RetriableRequest
+	pathClient             // Client.Request (Metadata only: no routing needed)
 )
 
 type callPlan struct {
@@ -57,7 +57,7 @@ type callPlan struct {
 	Path     int           `json:"path"`
 	Token    string        `json:"token"`
 	StartAt  time.Duration `json:"start_at"`
-	CancelAt time.Duration `json:"cancel_at"` // <0: never
+	CancelAt time.Duration `json:"cancel_at"`  // <0: never
 	Timeout  int32         `json:"timeout_ms"` // CreateTopics TimeoutMillis
 }
 
@@ -104,7 +104,7 @@ type plan struct {
 	// connection, send Stream verbatim (then disconnect if StreamClose).
 	// Honest: every reply is correct (throttles allowed), nothing is cancelled, the idle
 	// reaper is far away: every call must then succeed with its own response.
-	Honest bool `json:"honest,omitempty"`
+	Honest      bool   `json:"honest,omitempty"`
 	Stream      []byte `json:"stream,omitempty"`
 	StreamAfter int    `json:"stream_after,omitempty"`
 	StreamClose bool   `json:"stream_close,omitempty"`
